@@ -2,7 +2,8 @@
 
 A schema in which the local name `v` has two different declarations, plus a global reference and a substitution member.  For every element
 of generated documents: schema.find(path(e)) is the declaration that governed e, as observed through the public validation_hook;
-iter_errors(path=p) equals the whole-document errors restricted to the selected subtree (positional paths); with max_depth the errors
+iter_errors(path=p) equals the whole-document errors restricted to the selected subtree(s) (positional and non-positional paths; a unique
+constraint on the repeated intermediate element a); with max_depth the errors
 above the cut are unchanged.
 """
 import random
@@ -14,7 +15,7 @@ SCHEMA = f'''<xs:schema {XS} targetNamespace="urn:t" xmlns:t="urn:t" elementForm
    <xs:element name="a" maxOccurs="unbounded"><xs:complexType><xs:sequence>
        <xs:element name="v" type="xs:int" maxOccurs="unbounded"/>
        <xs:element name="b" minOccurs="0"><xs:complexType><xs:sequence><xs:element name="v" type="xs:date"/></xs:sequence></xs:complexType></xs:element>
-     </xs:sequence></xs:complexType></xs:element>
+     </xs:sequence></xs:complexType><xs:unique name="UV"><xs:selector xpath="t:v"/><xs:field xpath="."/></xs:unique></xs:element>
    <xs:element ref="t:g" minOccurs="0" maxOccurs="unbounded"/>
   </xs:sequence></xs:complexType></xs:element>
  <xs:element name="g" type="xs:token"/><xs:element name="g2" type="xs:NCName" substitutionGroup="t:g"/>
@@ -26,7 +27,7 @@ _S = {}
 def gen(rng):
     parts = []
     for i in range(rng.randrange(1, 4)):
-        vs = ''.join(f'<t:v>{rng.choice(["1", "22", "x"])}</t:v>' for _ in range(rng.randrange(1, 3)))
+        vs = ''.join(f'<t:v>{rng.choice(["1", "22", "x", "1"])}</t:v>' for _ in range(rng.randrange(1, 4)))
         b = f'<t:b><t:v>{rng.choice(["2020-01-01", "nope"])}</t:v></t:b>' if rng.random() < .6 else ''
         parts.append(f'<t:a>{vs}{b}</t:a>')
     for i in range(rng.randrange(0, 3)): parts.append(rng.choice(['<t:g>tok</t:g>', '<t:g2>nc</t:g2>', '<t:g2>1bad</t:g2>']))
@@ -65,9 +66,21 @@ def eval_doc(args):
                 p = path_of(root, e, True, parent)
                 perrs = [x.reason for x in s.iter_errors(res, path=p, namespaces=NS)]
                 sub = set(e.iter()); want = [x.reason for x in full_errs if x.elem in sub]
+                # a uniqueness error relates two nodes of one scope element (a): when a single v is selected its partner lies outside the part, so
+                # the error is not an error "of that part"; it is compared for parts that contain the scope element and for non-positional paths
+                if e.tag.endswith('}v'): want = [w for w in want if not w.startswith('duplicated value')]
                 if sorted(perrs) != sorted(want): bad.append(('partial errors', p, perrs[:2], want[:2]))
                 pd = s.decode(res, path=p, namespaces=NS, validation='lax')[0]
                 fd = None
+        # non-positional paths select elements under several instances of an ancestor; the identity constraint declared on that ancestor
+        # (xs:unique on a) must be applied per instance exactly as in the whole-document run
+        for p in sorted({path_of(root, e, False, parent) for e in root.iter() if e is not root}):
+            n += 1
+            sel = [e for e in root.iter() if e is not root and path_of(root, e, False, parent) == p]
+            sub = set(x for e in sel for x in e.iter())
+            perrs = [x.reason for x in s.iter_errors(res, path=p, namespaces=NS)]
+            want = [x.reason for x in full_errs if x.elem in sub]
+            if sorted(perrs) != sorted(want): bad.append(('partial errors (non-positional path)', p, perrs[:3], want[:3]))
         for md in (1, 2):
             derrs = [(x.reason, x.path) for x in s.iter_errors(res, max_depth=md, namespaces=NS)]
 
